@@ -180,6 +180,77 @@ func (m *Machine) externalUncached(fn *ssa.Function) externalFn {
 	return opaqueStub(name)
 }
 
+// strings.Builder: the contents live in a side table keyed by the builder's address (a Builder must not be
+// copied after first use — the library panics on that; the model does not check it). Taint is kept.
+type builderState struct {
+	bs    []*Term
+	taint bool
+}
+
+func (m *Machine) builderOf(p value) *builderState {
+	ptr, ok := p.(*value)
+	if !ok || ptr == nil {
+		m.targetPanic("runtime error: invalid memory address or nil pointer dereference (strings.Builder)")
+	}
+	if m.builders == nil {
+		m.builders = map[*value]*builderState{}
+	}
+	b := m.builders[ptr]
+	if b == nil {
+		b = &builderState{}
+		m.builders[ptr] = b
+	}
+	return b
+}
+
+func init() {
+	builderModels = func() {
+		models["(*strings.Builder).WriteString"] = func(m *Machine, c *frame, fn *ssa.Function, a []value) value {
+			b, sv := m.builderOf(a[0]), a[1].(strV)
+			b.bs = append(b.bs, sv.Bytes()...)
+			b.taint = b.taint || sv.taint
+			return tuple{mkConst(64, uint64(sv.Len())), ifaceV{}}
+		}
+		models["(*strings.Builder).WriteByte"] = func(m *Machine, c *frame, fn *ssa.Function, a []value) value {
+			b := m.builderOf(a[0])
+			b.bs = append(b.bs, m.asTerm(a[1]))
+			return ifaceV{}
+		}
+		models["(*strings.Builder).WriteRune"] = func(m *Machine, c *frame, fn *ssa.Function, a []value) value {
+			b, r := m.builderOf(a[0]), m.asTerm(a[1])
+			if !r.IsConst() {
+				m.abort("strings.Builder.WriteRune of a symbolic rune")
+			}
+			enc := string(rune(r.SVal()))
+			b.bs = append(b.bs, mkStr(enc).Bytes()...)
+			return tuple{mkConst(64, uint64(len(enc))), ifaceV{}}
+		}
+		models["(*strings.Builder).Write"] = func(m *Machine, c *frame, fn *ssa.Function, a []value) value {
+			b := m.builderOf(a[0])
+			sl, _ := a[1].([]value)
+			for _, e := range sl {
+				b.bs = append(b.bs, m.asTerm(e))
+			}
+			return tuple{mkConst(64, uint64(len(sl))), ifaceV{}}
+		}
+		models["(*strings.Builder).String"] = func(m *Machine, c *frame, fn *ssa.Function, a []value) value {
+			b := m.builderOf(a[0])
+			return strFromTerms(append([]*Term(nil), b.bs...), b.taint)
+		}
+		models["(*strings.Builder).Len"] = func(m *Machine, c *frame, fn *ssa.Function, a []value) value {
+			return mkConst(64, uint64(len(m.builderOf(a[0]).bs)))
+		}
+		models["(*strings.Builder).Reset"] = func(m *Machine, c *frame, fn *ssa.Function, a []value) value {
+			b := m.builderOf(a[0])
+			b.bs, b.taint = nil, false
+			return nil
+		}
+		models["(*strings.Builder).Grow"] = func(m *Machine, c *frame, fn *ssa.Function, a []value) value { return nil }
+	}
+}
+
+var builderModels func()
+
 func opaqueStub(name string) externalFn {
 	return func(m *Machine, caller *frame, fn *ssa.Function, args []value) value {
 		m.opaqueCalls[name]++
@@ -817,6 +888,7 @@ func init() {
 		},
 	}
 	initSymIntrinsics()
+	builderModels()
 	// regexp on concrete arguments: native (used by signature.ValidName/CleanName)
 	models["regexp.MustCompile"] = func(m *Machine, c *frame, fn *ssa.Function, a []value) value {
 		p, ok := a[0].(strV).Concrete()
